@@ -44,7 +44,7 @@ def _gen_plan(seed, tier):
         plan['kind'] = 'ensemble'
         plan['nested'] = r.choice(['NM', 'Powell', 'DE', 'DE'])
         if plan['nested'] == 'DE': plan['nested_np'] = r.choice([5, 6, 8])
-        plan['limits'] = [min(plan['limits'][0], 12), plan['limits'][1]]
+        plan['limits'] = [min(plan['limits'][0] if plan['limits'][0] is not None else 12, 12), plan['limits'][1]]
         plan['map'] = r.choice([None, None, {'mode': 'serial'}, {'mode': 'shuffled'}])
         plan['modes'] = r.sample(['steps', 'steps', 'solve_step', 'solve'], 2)
         plan['ops'] = []
